@@ -40,17 +40,17 @@ claimed = {
  'C13': ("table agreement (encoder/decoder replace pairs) + per-arm value-flow routing + path templates + must-precede",
          "Decides for all path strings at once: decoder of extra files = inverse of TempPath's encoder (prefix strip once, root placeholder once, parent placeholder everywhere; no cut-set trimming); routing of o/os/i placeholders and the ../ prefix (unless basename; absolute unchanged); declared outputs renamed to exactly Path(x); output dirs created inside the temp dir before the command; final directory created before the rename (repaired defect F4). Known finding K3: placeholders lie inside the valid path alphabet. Not decided: resulting FS state for concrete paths.", "§7 C13"),
  'C15': ("regex-alternative exhaustiveness (regexp/syntax) vs switch arms + scenarios for absent/empty values + constant checks",
-         "Every placeholder type the regex accepts has an arm or reaches the fatal default (formatter and SetOut); modifiers applied in list order with a handler per documented modifier and no cut-set trimming; all occurrences replaced (count < 0); absent AND present-but-empty values fatal per arm, accessors fatal; default name and command free of map-order input. The result strings of modifier chains (most of the property) are NOT decided by this family.", "§7 C15"),
+         "Every placeholder type the regex accepts has an arm or reaches the fatal default (formatter and SetOut); modifiers applied in list order with a handler per documented modifier, no cut-set trimming, and `%STRING` cut only as a suffix (cut length = len(STRING) under a suffix comparison); all occurrences replaced (count < 0); absent AND present-but-empty values fatal per arm, accessors fatal; default name and command free of map-order input. The result strings of modifier chains (most of the property) are NOT decided by this family.", "§7 C15"),
  'C16': ("must-precede on the feasible subgraph + scenarios (Ready=false) + recursion/visited-guard idiom + complete-loop idiom",
-         "Readiness of every process of the run set - driver included (repaired defect F6) - established before the first goroutine starts, not-ready is fatal before any start, BaseProcess.Ready covers all four port maps; upstream closure recurses over in-ports and param in-ports, adds what it recurses into, guarded by a visited test on the same process (repaired defect F3), targets added; cut + reconnect for both port kinds with every connection examined; each process started once (repaired defect F2/F7). Not decided: which commands execute for a concrete graph.", "§7 C16"),
+         "Readiness of every process of the run set - driver included (repaired defect F6) - established before the first goroutine starts, not-ready is fatal before any start, BaseProcess.Ready covers all four port maps; upstream closure recurses over in-ports and param in-ports, adds what it recurses into, guarded by a visited test on the same process (repaired defect F3), targets added (the recursive form and the work-list form of the traversal are both recognised); the driver is chosen among the processes being run; cut + reconnect for both port kinds with every connection examined; each process started once (repaired defect F2/F7). Not decided: which commands execute for a concrete graph.", "§7 C16"),
  'C17': ("symbolic agreement of the two formatter arms + must-precede within the select iteration + scenarios with the streaming flag set",
-         "Producer and consumer name the same pipe (prefix(mods(FifoPath))), FifoPath = path+.fifo; existing FIFO fatal; FIFO created then IP sent for every streaming output before `go Execute`; FIFO of every streaming output removed after Done; streaming outputs exempt from skip test, missing-output check and rename. NOT decided: byte delivery, and termination of a re-run - which in fact hangs on the pinned tree (observation K5 in DESIGN §8, not a finding of this check).", "§7 C17"),
+         "Producer and consumer name the same pipe (prefix(mods(FifoPath))), FifoPath = path+.fifo; existing FIFO fatal; FIFO created then IP sent for every streaming output before `go Execute`; FIFO of every streaming output removed after Done; streaming outputs exempt from skip test, missing-output check and rename. a task skipped because its outputs exist still opens the FIFO of every streaming in-IP for reading, with an open that cannot block (R6: necessary for 'the re-run terminates'; the defect F8 behind it was repaired); the consumer's record links every input unconditionally (R5, shared with C10.R1). NOT decided: byte delivery, termination of the re-run as a whole. Known finding K10 (record of a streaming IP attached after it is published).", "§7 C17"),
  'C18': ("symbolic value-flow of the collected slice and of the joined replacement",
          "Sub-stream channel ranged to closure into a slice that is fresh per joined port; replacement = Join(prefix(mods(Path(member)))..., PortInfo.joinSep) with modifiers per member and the separator rooted in the join:(..) capture group; members in the temp-dir identity and in Upstream; carrier gets SubStream before its single send. Not decided: one task per sub-stream under all timings.", "§7 C18"),
  'C19': ("complete-loop / once-per-iteration idioms, WaitGroup pairing, must-precede, scenarios on the selector, value-flow root of the product factor",
-         "ONLY the structural clauses: sources send on every iteration of complete loops; combinators drain every in-port to closure before combining, one full-range sender per out-port with Add/Done/Wait paired, head repetition factor rooted in the recursion's result; selector: one receive per port, reject => nothing of the tuple sent, accept-all => everything sent, no loop-carried decision state; splitter Close<Finalize<Send; concatenator content+newline per input, close before send. All data-dependent clauses (product contents, split arithmetic, glob semantics) are NOT decided - they are most of the property.", "§7 C19"),
+         "ONLY the structural clauses: sources send on every iteration of complete loops, scanner loops send every token and stop at exhaustion (polarity by scenario), a bufio.Reader loop also sends text delivered together with EOF; combinators drain every in-port to closure before combining, one full-range sender per out-port with Add/Done/Wait paired, head repetition factor rooted in the recursion's result; selector: one receive per port, reject => nothing of the tuple sent, accept-all => everything sent, no loop-carried decision state; splitter Close<Finalize<Send; concatenator content+newline per input, every handle closed and every output IP (main and per-group) sent on all returning paths, close before send. All data-dependent clauses (product contents, split arithmetic, glob semantics) are NOT decided - they are most of the property.", "§7 C19"),
  'C20': ("recursion/keying idiom + permutation idiom on symbolic slices + comparator orientation + static parsing of text/template constants",
-         "Flatten recurses over every Upstream value and keys entries by the stored record's ID; sort returns exactly the input values (repaired defect F1) ordered by StartTime ascending; all three converters use flatten+sort and render every element with their per-format field sets (templates parsed statically); the Bash template strips exactly the ../ prefix the formatter adds, everywhere. Not decided: byte-identical re-creation by the script, ID uniqueness.", "§7 C20"),
+         "Flatten recurses over every Upstream value and keys entries by the stored record's ID; sort returns exactly the input values (repaired defect F1) ordered by StartTime ascending; all three converters use flatten+sort and render every element with their per-format field sets (templates parsed statically), and write the report when no step fails (error-test polarity by scenario); the Bash template strips exactly the ../ prefix the formatter adds, everywhere. Not decided: byte-identical re-creation by the script, ID uniqueness.", "§7 C20"),
 }
 
 checks = []
